@@ -110,6 +110,38 @@ def case_cell(ctx, kind, only_surface=True, ncells=1):
         ctx.holds("volume_positive", V > 0)
 
 
+def case_scaled(ctx, kind):
+    """a concrete curved / distorted cell scaled by one symbolic factor s: closedness and flux = dim * volume are
+    polynomial identities in s (covers the higher-order templates whose full symbolic geometry is too large)"""
+    with ctx.concrete():
+        m = {"hexahedron20": lambda: fem.Cube(n=2).add_midpoints_edges(), "hexahedron27": lambda: fem.Cube(n=2).add_midpoints_edges().add_midpoints_faces().add_midpoints_volumes(),
+             "quad9": lambda: fem.Rectangle(n=2).add_midpoints_edges().add_midpoints_faces(), "hexahedron": lambda: fem.Cube(n=2)}[kind]()
+        X0 = m.points.copy()
+        rng = np.random.default_rng(3)
+        X0 = X0 + np.round(rng.uniform(-1, 1, X0.shape) * 8) / 64  # curved edges / distorted, dyadic rationals
+    s_ = ctx.var("s", 0.5, 2)
+    pts = (ctx.const_array(X0) if ctx.sym else X0) * s_
+    mesh = fem.Mesh(pts, m.cells, m.cell_type)
+    Rv, Rb = REG[kind]
+    d = mesh.dim
+    with ctx.assume_forks(False):
+        vol = Rv(mesh)
+        bnd = Rb(mesh)
+    dA = np.asarray(bnd.dA)
+    ctx.equal("area_vectors_of_closed_surface_sum_to_zero", dA.reshape(d, -1).sum(axis=1), np.zeros(d, dtype=int), tol=1e-10, box=BOX)
+    h = np.asarray(bnd.h)
+    cells = bnd.mesh.cells
+    P = np.asarray(mesh.points)
+    flux = 0
+    for f in range(dA.shape[2]):
+        for q_ in range(dA.shape[1]):
+            x = [sum(h[a, q_, 0] * P[cells[f, a], i] for a in range(cells.shape[1])) for i in range(d)]
+            flux = flux + sum(x[i] * dA[i, q_, f] for i in range(d))
+    ctx.equal("flux_of_position_is_dim_times_volume", flux, d * np.asarray(vol.dV).sum(), tol=1e-9, box=BOX)
+    n = np.asarray(bnd.normals)
+    ctx.equal("normals_are_unit_vectors", sum(n[i] * n[i] for i in range(d)), np.ones(n.shape[1:], dtype=int), box=BOX)
+
+
 def case_outward_quad(ctx):
     """quad4: every area vector points away from the cell centroid"""
     mesh = sym_mesh(ctx, "quad")
@@ -164,6 +196,9 @@ def cases(tier):
         ("cell", case_cell, {"kind": "quad", "only_surface": True, "ncells": 2, "max_paths": 8}),
         ("cell", case_cell, {"kind": "quad8", "max_paths": 8}),
         ("outward_quad", case_outward_quad, {"max_paths": 8}),
+        ("scaled", case_scaled, {"kind": "quad9", "max_paths": 8}),
+        ("scaled", case_scaled, {"kind": "hexahedron", "max_paths": 8}),
+        ("scaled", case_scaled, {"kind": "hexahedron20", "max_paths": 8}),
         ("selection", case_selection, {"kind": "quad"}),
         ("selection", case_selection, {"kind": "hexahedron"}),
     ]
@@ -171,5 +206,6 @@ def cases(tier):
         out += [
             ("cell", case_cell, {"kind": "quad9", "max_paths": 8}),
             ("cell", case_cell, {"kind": "hexahedron", "max_paths": 8}),
+            ("scaled", case_scaled, {"kind": "hexahedron27", "max_paths": 8}),
         ]
     return out
